@@ -18,7 +18,7 @@ REPO = os.environ.get("VERIF_REPO", "/repo")
 BUILD = os.environ.get("VERIF_BUILD", os.path.join(VERIF, "build"))
 COQ = os.path.join(VERIF, "coq")
 GOBIN = os.path.join(BUILD, "gobin")
-EVID = os.path.join(VERIF, "evidence")
+EVID = os.environ.get("VERIF_EVID", os.path.join(VERIF, "evidence"))   # scratch runs (seeded changes) write elsewhere
 
 GOENV = {
     "GOFLAGS": "-mod=mod",
